@@ -335,7 +335,7 @@ def run_group(g, woven, scratch, want_trace=False):
         if stublim and not failed:
             last_reason = 'harness stub does not model a new use of a library function: %s' % '; '.join(sorted(set(o['desc'] for o in stublim)))[:300]
             continue
-        nobody = [o for o in failed if '.no-body.' in (o['name'] or '')]
+        nobody = [o for o in failed if '.no-body.' in (o['name'] or '') or (o['name'] or '').startswith('VG_SINK_NOT_MODELLED_')]
         if nobody:
             last_reason = 'no contract stub for a function the code now calls: %s' % ', '.join(sorted(set(o['name'] for o in nobody)))
             continue
